@@ -270,10 +270,10 @@ def _file(metadata: AS.Metadata, argv: Sequence[AS.Value]) -> EvalIOContext:
             if (path_or_fd.value, _mode) == (2, "wb"):
                 return File(sys.stderr.buffer)
             return File(open(path_or_fd.value, _mode))
-        except OSError as err:
-            raise error.UnsuspectedHangeulOSError(
-                metadata, f"운영체제 오류 errno={err.errno}", err.errno
-            ) from err
+        except (OSError, ValueError, TypeError, OverflowError) as err:
+            # negative or oversized descriptors and paths with a NUL are
+            # rejected by open() itself, before the operating system is asked
+            raise _file_error(metadata, err) from None
         yield
 
     return AS.IO("ㄱㄴ", (path_or_fd, mode), _fn)
